@@ -235,6 +235,29 @@ def run(ctx):
                    e, cg.describe_path(reach, cs.caller.key)))
     chk.ob('K4', 'non-reentrant-deny-list-scanned', True, '', '', nontrivial=False,
            how='%d external call sites checked against %d APIs' % (len(cg.external_calls(reach)), len(NON_REENTRANT)))
+    # address of a mutable global escaping into ordinary code: state shared by all threads
+    shared = []
+    for key, (f, _, _) in sorted(reach.items(), key=lambda kv: str(kv[0])):
+        for n in f.body.walk():
+            if n.k == 'UnaryOperator' and n['op'] == '&':
+                t = strip(n.ch[0])
+                if t.k == 'DeclRefExpr' and t['ref']['kind'] == 'var' and t['ref'].get('staticStorage'):
+                    p = n.parent
+                    while p is not None and p.k in ('ImplicitCastExpr', 'ParenExpr', 'CStyleCastExpr'):
+                        p = p.parent
+                    if p is not None and p.k == 'CallExpr' and (p.get('callee') or '').startswith('pthread_'):
+                        continue
+                    if 'const' in (t.get('ct') or '').split('*')[0].split() and not (t.get('ct') or '').endswith(']'):
+                        continue
+                    if f.name in once_inits:
+                        continue
+                    shared.append((f, n, t['ref']['name']))
+    for f, n, name in shared:
+        chk.ob('K4', 'shared-global-by-address[%s:%s]' % (f.name, name), False, n.where(), f.name,
+               '&%s is handed out in the thread-safe build: every thread then reads and writes the same record '
+               '(per-call data of concurrent exec calls overwrite each other)' % name)
+    chk.ob('K4', 'no-global-record-shared-by-address', True, '', '', nontrivial=False,
+           how='%d address-of-global expressions outside pthread calls in %d reachable functions' % (len(shared), len(reach)))
     # ---- K5 --------------------------------------------------------------------------------------
     G = prog.require_func('snoopy_tsrm_getCurrentThreadId')
     rets = C.return_nodes(G)
@@ -271,6 +294,27 @@ def run(ctx):
     chk.ob('K5', 'owner-removes-own-entry', ok and own, D0.where(), D0.name,
            'the destructor does not remove the entry found for the calling thread',
            how='dtor removes the node returned by getCurrentThreadRepoEntry()')
+    # the registered-thread count follows every insertion and removal
+    def is_count_step(e, op):
+        return e.k == 'UnaryOperator' and e['op'] == op and strip(e.ch[0]).k == 'MemberExpr' and \
+            strip(e.ch[0]).get('member') == 'count' or \
+            (e.k == 'CompoundAssignOperator' and e['op'] == ('+=' if op == '++' else '-=') and
+             strip(e.ch[0]).k == 'MemberExpr' and strip(e.ch[0]).get('member') == 'count')
+    R = prog.require_func('snoopy_util_list_remove')
+    frees = [c for c in R.calls('free') if (decl_of(arg(c, 0)) or {}).get('kind') == 'parm']
+    okc = bool(frees)
+    for c in frees:
+        if not (C.always_preceded(R, c, lambda e: is_count_step(e, '--')) or C.always_followed(R, c, lambda e: is_count_step(e, '--'))):
+            okc = False
+    chk.ob('K5', 'count-follows-removal', okc, frees[0].where() if frees else R.where(), R.name,
+           'a path of %s unlinks and frees a node without decrementing list->count: the registered-thread count drifts, '
+           'a later lone call no longer sees exactly one thread' % R.name,
+           how='every free(node) is accompanied by count-- on all paths')
+    PU = prog.require_func('snoopy_util_list_push')
+    okp = C.must_pass_through(PU, lambda e: is_count_step(e, '++') or
+                              (e.k == 'CallExpr' and e.get('callee') == 'snoopy_error_handler'))
+    chk.ob('K5', 'count-follows-insertion', okp, PU.where(), PU.name,
+           'a path of %s links a node without incrementing list->count' % PU.name)
     # ---- K6 --------------------------------------------------------------------------------------
     chk.variant = 'ts-off'
     p2 = ctx.program(facts.TS_OFF, 'lib')
